@@ -34,6 +34,10 @@
 //!   infallible safe conversion (must be rejected) with twins through the checked doors — plus
 //!   one generated call per row that the driver's `rows_c06` reports (none on a sound tree):
 //!   rustc accepting it is the concrete witness of the unchecked door.
+//! * crate `bounds` (C17): the corpus `probes/bounds.rs` — each bitwise-copy fn of the vector
+//!   types instantiated at `String` (must be rejected, E0277) and at `u32` (must compile) — plus,
+//!   for every row of Gen/PubFns that must require `T: Copy` (same set as the driver's
+//!   `copy_rows`), a generated call at `String` (must be rejected) and at `u8` (must compile).
 //! * crate `escape` (C17): the hand-written corpus `probes/escape.rs` of borrow-escape programs
 //!   (must be rejected by the borrow checker) and their must-compile twins; the expectation of
 //!   each is also checked against the model (`tied <row>`).
@@ -54,6 +58,7 @@ const ESCAPE_SRC: &str = include_str!("../../probes/escape.rs");
 const AUTOTRAIT_PRELUDE: &str = include_str!("../../probes/autotrait_prelude.rs");
 const UNSAFE_PRELUDE: &str = include_str!("../../probes/unsafe_prelude.rs");
 const SELFESCAPE_PRELUDE: &str = include_str!("../../probes/selfescape_prelude.rs");
+const BOUNDS_SRC: &str = include_str!("../../probes/bounds.rs");
 const DOORS_SRC: &str = include_str!("../../probes/doors.rs");
 const PACKAGE_TMPL: &str = include_str!("../../probes/package.toml.tmpl");
 
@@ -386,6 +391,9 @@ fn main() {
                 other => internal(&format!("lean driver answered `{other}` for {ty}")),
             };
             add_auto(ty, "-", "", tr, "static", model, &mut auto_src, &mut auto_rows);
+            if matches!(spelling(ty), Some(Spelling::Type(t)) if t.contains("{L}")) {
+                add_auto(ty, "-", "", tr, "generic", model, &mut auto_src, &mut auto_rows);
+            }
         }
     }
 
@@ -548,6 +556,69 @@ fn main() {
         }
     }
 
+    // ------------------------------------------------------------------ C17 element-type bounds
+    struct CopyRow {
+        name: String,
+        loc: String,
+        bad_line: usize,
+        ok_line: usize,
+        bad_code: String,
+        ok_code: String,
+    }
+    let bounds_corpus = if run_c17 { parse_corpus(BOUNDS_SRC) } else { vec![] };
+    let mut bounds_src = String::from(BOUNDS_SRC);
+    let mut copy_rows: Vec<CopyRow> = vec![];
+    if run_c17 {
+        bounds_src.push_str("//@ generated must_compile row=-\n");
+        let mut bline = bounds_src.lines().count();
+        let mut rust_set: BTreeSet<String> = BTreeSet::new();
+        for r in &collected.rows {
+            let Some(cp) = &r.copy_probe else { continue };
+            rust_set.insert(format!("{} @ {}", r.name, r.loc));
+            match cp {
+                Ok((at_string, at_u8)) => {
+                    let n = copy_rows.len();
+                    let wrap = |c: &pubfns::ProbeCall, tag: &str| {
+                        if r.is_unsafe {
+                            format!("fn {tag}_{n}{}() {{ unsafe {{ let _ = {}; }} }}", c.generics, c.call)
+                        } else {
+                            format!("fn {tag}_{n}{}() {{ let _ = {}; }}", c.generics, c.call)
+                        }
+                    };
+                    let bad_code = wrap(at_string, "cs");
+                    let ok_code = wrap(at_u8, "cu");
+                    bounds_src.push_str(&bad_code);
+                    bounds_src.push('\n');
+                    bounds_src.push_str(&ok_code);
+                    bounds_src.push('\n');
+                    copy_rows.push(CopyRow {
+                        name: r.name.clone(),
+                        loc: r.loc.clone(),
+                        bad_line: bline + 1,
+                        ok_line: bline + 2,
+                        bad_code,
+                        ok_code,
+                    });
+                    bline += 2;
+                }
+                Err(why) => internal(&format!("cannot build the `String` instantiation of {} ({}): {why}", r.name, r.loc)),
+            }
+        }
+        // the Lean side must select the same rows
+        let a = ask("copy_rows");
+        let lean_set: BTreeSet<String> = if a == "none" { BTreeSet::new() } else { a.split(" ; ").map(str::to_string).collect() };
+        if lean_set != rust_set {
+            disagreements.push(json!({
+                "property": "C17",
+                "kind": "impl-vs-model",
+                "input": ["copy_rows"],
+                "expected": format!("the rows the translator's copy rule selects: {:?}", rust_set.difference(&lean_set).collect::<Vec<_>>()),
+                "observed": format!("only in the Lean table: {:?} (Gen/PubFns.lean is stale — regenerate)", lean_set.difference(&rust_set).collect::<Vec<_>>()),
+                "profile": "check"
+            }));
+        }
+    }
+
     // ------------------------------------------------------------------ C06 doors
     struct DoorRow {
         name: String,
@@ -612,7 +683,7 @@ fn main() {
         crates.push("autotrait");
     }
     if run_c17 {
-        crates.extend(["unsafety", "escape", "selfescape"]);
+        crates.extend(["unsafety", "escape", "selfescape", "bounds"]);
     }
     if run_c06 {
         crates.push("doors");
@@ -639,6 +710,7 @@ fn main() {
         ("escape", &ESCAPE_SRC.to_string()),
         ("selfescape", &self_src),
         ("doors", &doors_src),
+        ("bounds", &bounds_src),
     ] {
         if !crates.contains(&krate) {
             continue;
@@ -664,14 +736,23 @@ fn main() {
     }
     let mut n_accept = 0;
     let mut n_reject = 0;
+    let mut reject_why: BTreeMap<usize, String> = BTreeMap::new();
     let mut samples: Vec<Value> = vec![];
     for r in &auto_rows {
         let rejected = match ad.get(&r.line) {
             None => false,
             Some(d) => {
-                if d.codes.iter().any(|c| c != "E0277") {
+                // E0277 = the trait does not hold at all; a region error (no code: "lifetime may
+                // not live long enough", or E0521/E0477/E0310/E0491) = it holds only for some
+                // lifetimes (an impl restricted to `'static`): both are rejections of the probe
+                let ok = d.codes.iter().all(|c| {
+                    matches!(c.as_str(), "E0277" | "E0521" | "E0477" | "E0310" | "E0491")
+                        || (c.is_empty() && d.messages.iter().all(|m| m.contains("lifetime") || m.contains("outlive")))
+                });
+                if !ok {
                     internal(&format!("autotrait probe `{}` failed with {:?} {:?}", r.code, d.codes, d.messages));
                 }
+                reject_why.insert(r.line, format!("{:?} {:?}", d.codes, d.messages.first()));
                 true
             }
         };
@@ -692,7 +773,7 @@ fn main() {
                     "kind": "impl-vs-oracle",
                     "input": [r.code.clone()],
                     "expected": format!("C05: {}<{}>: {} must {}", r.ty, r.backend, r.tr, if spec {"hold"} else {"NOT hold (non-atomic share count)"}),
-                    "observed": format!("rustc {} this program", if rejected {"rejects"} else {"accepts"}),
+                    "observed": format!("rustc {} this program {}", if rejected {"rejects"} else {"accepts"}, reject_why.get(&r.line).cloned().unwrap_or_default()),
                     "profile": "check"
                 }));
             }
@@ -703,7 +784,7 @@ fn main() {
                 "kind": "impl-vs-model",
                 "input": [format!("autotrait {} {} {}", r.tr, r.ty, r.backend), r.code.clone()],
                 "expected": format!("model holds = {} ({} variant)", r.model, r.variant),
-                "observed": format!("rustc {}", if rejected {"rejects (E0277)"} else {"accepts"}),
+                "observed": format!("rustc {}", if rejected { format!("rejects {}", reject_why.get(&r.line).cloned().unwrap_or_default()) } else { "accepts".to_string() }),
                 "profile": "check"
             }));
         }
@@ -829,6 +910,61 @@ fn main() {
         }
     }
 
+    // ------------------------------------------------------------------ verdicts: C17 bounds
+    let bd = diags.get("probe_bounds").unwrap_or(&empty);
+    let mut n_bounds_ok = 0;
+    let bounds_generated_from = bounds_corpus.last().map_or(usize::MAX, |_| BOUNDS_SRC.lines().count() + 1);
+    for (idx, p) in bounds_corpus.iter().enumerate() {
+        let end = bounds_corpus.get(idx + 1).map_or(bounds_generated_from, |q| q.first_line);
+        let mut codes = BTreeSet::new();
+        let mut msgs = vec![];
+        for (_, d) in bd.range(p.first_line..end) {
+            codes.extend(d.codes.iter().cloned());
+            msgs.extend(d.messages.iter().cloned());
+        }
+        if let Some(c) = codes.iter().find(|c| c.as_str() != "E0277" && c.as_str() != "E0599") {
+            internal(&format!("bounds probe `{}` failed for an unrelated reason {c}: {msgs:?}", p.name));
+        }
+        let rejected = !codes.is_empty();
+        if rejected == p.must_fail {
+            n_bounds_ok += 1;
+        } else {
+            disagreements.push(json!({
+                "property": "C17",
+                "kind": "impl-vs-oracle",
+                "input": p.text.lines().collect::<Vec<_>>(),
+                "expected": if p.must_fail { "rejected (E0277): a bitwise copy of non-`Copy` elements must not type-check" } else { "accepted" },
+                "observed": if rejected { format!("rejected: {codes:?} {msgs:?}") } else { "accepted: safe client code duplicates the ownership of a `String`".to_string() },
+                "profile": "check"
+            }));
+        }
+    }
+    let mut n_copy_rejected = 0;
+    for r in &copy_rows {
+        if let Some(d) = bd.get(&r.ok_line) {
+            internal(&format!("generated call for {} is not well typed at u8: `{}` → {:?} {:?}", r.name, r.ok_code, d.codes, d.messages));
+        }
+        match bd.get(&r.bad_line) {
+            Some(d) if d.codes.iter().all(|c| c == "E0277" || c == "E0599") => n_copy_rejected += 1,
+            Some(d) => internal(&format!("generated call for {} at String failed with {:?} {:?}", r.name, d.codes, d.messages)),
+            None => disagreements.push(json!({
+                "property": "C17",
+                "kind": "impl-vs-oracle",
+                "input": [r.bad_code.clone()],
+                "expected": format!("rejected (E0277 `String: Copy`): {} ({}) duplicates element bits, so it must require `T: Copy`", r.name, r.loc),
+                "observed": "rustc accepts the instantiation at `String`",
+                "profile": "check"
+            })),
+        }
+    }
+    for (ln, d) in bd {
+        let in_corpus = bounds_corpus.first().map_or(false, |p| *ln >= p.first_line) && *ln < bounds_generated_from;
+        let generated = copy_rows.iter().any(|r| r.bad_line == *ln || r.ok_line == *ln);
+        if !in_corpus && !generated {
+            internal(&format!("bounds crate: error outside the probes (line {ln}): {:?}", d.messages));
+        }
+    }
+
     // ------------------------------------------------------------------ verdicts: C06 doors
     const TYPECK_CODES: &[&str] = &["E0277", "E0308", "E0599", "E0283", "E0282", "E0271"];
     let dd = diags.get("probe_doors").unwrap_or(&empty);
@@ -912,6 +1048,7 @@ fn main() {
     }
 
     let programs = auto_rows.len() + 2 * unsafe_rows.len() + escape.len() + self_rows.len()
+        + bounds_corpus.len() + 2 * copy_rows.len()
         + doors_corpus.len() + door_rows.len();
     let mut distribution = serde_json::Map::new();
     let mut rules: Vec<&str> = vec![];
@@ -936,6 +1073,10 @@ fn main() {
         distribution.insert("c17_selfescape_rejected".into(), json!(n_self_reject));
         distribution.insert("c17_selfescape_must_not_outlive_receiver".into(), json!(n_spec_checked));
         distribution.insert("c17_selfescape_skipped".into(), json!(self_skipped));
+        distribution.insert("c17_bounds_corpus_programs".into(), json!(bounds_corpus.len()));
+        distribution.insert("c17_bounds_corpus_as_expected".into(), json!(n_bounds_ok));
+        distribution.insert("c17_copy_rows".into(), json!(copy_rows.len()));
+        distribution.insert("c17_copy_rows_rejected_at_String".into(), json!(n_copy_rejected));
         distribution.insert("c17_table_rows".into(), json!(collected.rows.len()));
         distribution.insert("c17_sites".into(), json!(collected.sites.len()));
         rules.push("C17: every `_unchecked`/`# Safety`/unsafe row of the public-function table called without `unsafe` is rejected (E0133) and compiles inside `unsafe {}`; every escape-corpus program gets the expected borrowck verdict and the model's `tied` answer; every self-escape program's verdict equals the lifetime skeleton's prediction; the compiled Gen/PubFns flags the same rows as the source; plus the row predicates of the C17 theorems (`rows_c17`)");
